@@ -154,6 +154,31 @@ PROPS = {
         fields=[32, 33, 34, 36, 37, 38, 39, 40, 44, 30],
         rule=CHAIN_RULE + "; after the last block the application state is exported (ExportAppStateAndValidators), a fresh application is initialised from the export at the next height, and the two modules are observed there",
         assumptions=["the other modules' genesis round trip (auth, bank, staking, evm, ...) is trusted; the export is taken at a block boundary"]),
+    'C18': dict(
+        theorems=['C18_binding_refuted', 'C18_cuts_determine_opening', 'C18_partial'],
+        runs=[func('open', 'openings', 400, 20000, 'open_mismatches', 'open_check', fields=[1, 2, 3, 4], shards_quick=4, shards_thorough=16)],
+        fields=[1, 2, 3, 4],
+        rule="pairs of openings (salt, vote data) of one commitment: identical, re-cut with the deprecated topic, regrouped into several items, salt boundary moved, and openings with different content (another owner, another salt, entries dropped / swapped); digest, validation and the feeder's hash from the exported Go functions; every eighth pair is also revealed through ABCI (prevote, vote A, prevote, vote B); non-trivial: a second, different opening is accepted",
+        assumptions=["SHA-256 is collision-free on the inputs used (equal digests <=> equal committed bytes is what the correspondence checks)",
+                     "KNOWN FINDING F19: the property is false of the code; openings of the SAME committed bytes are reported as KNOWN-FINDING, openings of DIFFERENT bytes as a violation"]),
+    'C19': dict(
+        theorems=['C19_small_ids_faithful', 'C19_small_ids_injective', 'C19_refuted'],
+        runs=[func('tok', 'tokenid', 2000, 100000, 'tok_mismatches', 'tok_check', fields=[1, 2, 3], shards_quick=4, shards_thorough=16),
+              chain('adv', 'adversarial', 16, 400, 'no_check')],
+        fields=[3, 6, 20],
+        rule="pairs of token-id strings: small, leading zeros, mixed case, 64-bit, 2^160-1 / 2^160 / 2^160+1, multiples of 2^160 plus a small number, 256-bit, signed (0x+f, 0x-1), malformed; MsgRecord.ValidateBasic verdict, the stored identity (NormalizeHexAddress) and the denoted number (big.Int) from the real functions; chain histories compare the stored / published NFT with the model; non-trivial: both ids accepted",
+        assumptions=["KNOWN FINDING F20: the property is false of the code for token ids >= 2^160 or with a sign; collapses involving such an id are reported as KNOWN-FINDING, a collapse or misrecording of ids below 2^160 as a violation"]),
+    'C20': dict(
+        theorems=['C20_same_committed_bytes', 'C20_entry_roundtrip', 'C20_cache_refines_spec', 'C20_retains_highest', 'C20_lookup'],
+        runs=[func('open', 'openings', 200, 8000, 'open_mismatches', 'nocheck', fields=[3], shards_quick=2, shards_thorough=8),
+              func('entries', 'entries', 800, 40000, 'entry_mismatches', 'entry_check', fields=[1, 2], shards_quick=4, shards_thorough=16),
+              func('cache', 'cache', 600, 30000, 'cache_mismatches', 'cache_check', fields=[1], shards_quick=4, shards_thorough=16),
+              dict(tag='race', kind='race', quick=(3000, 4, 2), thorough=(20000, 6, 10))],
+        fields=[1, 2, 3],
+        rule="entries: sources the chain publishes (Nft.FormatString) for supported chain ids x owner answers (0x00, 32-byte padded, unpadded, upper case, no prefix, malformed) through the feeder's real formatter (build-tagged export) and the chain's real parser; cache: op sequences of puts (equal, out-of-order, extreme timestamps, beyond capacity 1-5) and queries on the real BlockCache; race: one writer and several readers under the Go race detector; non-trivial: entry accepted by the chain / cache sequence that evicts",
+        assumptions=["data-race freedom is a property of the Go memory model: observed with the race detector on writer/reader runs, not proved; with every operation under the cache's lock an execution is some sequence of operations, and the refinement theorem covers every sequence",
+                     "SHA-256 not modelled: both Go implementations are compared with each other and with sha256(salt ++ entries)",
+                     "the chain's FormatString renders EIP-55 mixed case; the model renders lower case (the parser is case-insensitive)"]),
     'C15': dict(
         theorems=['C15_close_iff', 'C15_gate_as_coded', 'C15_every_window_closed', 'C15_first_tally', 'C15_nobody_else',
                   'C15_effect', 'C15_miss_only', 'C15_old_gate_never_closes'],
@@ -176,7 +201,14 @@ C17_LEVEL = dict(text="Unbounded theorems: for every state reachable by any hist
 SETTLE_TECH = "Coq proof: invariant by induction over histories of the generalised settlement machine (arbitrary oracle fills and fault plans) + differential correspondence via vm_compute on ABCI histories"
 
 ANTE_TECH = "Coq proof: structural induction over nested message trees with the authz limiter's nesting counter modelled as coded + differential correspondence on transaction shapes through ABCI"
+
 LEVELS = {
+    'C18': dict(text="The property is FALSE of the code (known finding F19) and that is what is proved: C18_binding_refuted exhibits two accepted openings of one commitment (the deprecated topic hides part of the committed bytes), further families are given as examples, and every witness is replayed on the real message server. Proved residual guarantee, unbounded: the committed bytes together with the cut positions determine the opening; with a collision-free digest equal digests and equal cuts mean equal openings. The check reports openings of the same committed bytes as KNOWN-FINDING and any accepted opening of different bytes as a violation.",
+                note=PROOF_NOTE, technique="Coq proof of the refutation and of the residual binding theorem + differential correspondence on pairs of openings (exported Go functions and ABCI)"),
+    'C19': dict(text="The property is FALSE of the code (known finding F20): proved refutation with witnesses (2^160 and 0; signed ids). Proved, unbounded: every plain token id below 2^160 (any casing, leading zeros) is accepted and stored as exactly the number it denotes, hence two such ids collapse only if equal - via a theorem that go-ethereum's lenient hex decoder computes the hex number on well-formed input. The check reports collapses involving an id >= 2^160 or a signed id as KNOWN-FINDING and any other collapse / misrecording as a violation.",
+                note=PROOF_NOTE, technique="Coq proof (hex decoding as a number) + differential correspondence on token-id pairs"),
+    'C20': dict(text="Unbounded theorems: feeder and chain hash the same byte string; for every publishable NFT and every hex owner answer the formatted entry parses on the chain to the same NFT and the owner's last 20 bytes (needs: decoder = hex number, trimming keeps the number, rendered addresses parse back); the tree-with-eviction cache answers every operation sequence like the specification that remembers all puts and answers from the cap highest timestamps; retained set and lookup characterised. Data-race freedom is observed with the Go race detector (partial). Correspondence through the build-tagged export of the feeder's formatter.",
+                note=PROOF_NOTE, technique="Coq proof: refinement of the cache to its specification, hex/format round trip + differential correspondence + Go race detector runs"),
     'C16': dict(text="Unbounded theorems: fixed gas cost formula; requirement = floor(price x gas) for every price and gas; the charge is exactly the requirement of the FIRST configured denomination the offered fee covers; it is independent of any surplus offered and of everything but the message kinds; collector floor(f(1-q)) and pool floor(fq) sum to f or f-1 for every q in [0,1]; the pool share is credited whether the messages succeed, fail or panic; an uncovered transaction changes nothing. Correspondence: parameterised fee cases through ABCI with the three transfers read from the transaction's bank events, plus the reward pool in chain histories.",
                 note=PROOF_NOTE, technique="Coq proof (Dec arithmetic, nia) + differential correspondence on parameterised settlement transactions through ABCI"),
     'C03': dict(text="Unbounded theorems over ALL transaction shapes (any message list, authz exec nested to any depth, grants, any signer / fee payer): every oracle message an admitted transaction executes is covered by the signature of the validator's operator or current feeder; an admitted transaction that executes an oracle message consists of exactly that message; handlers change only the named validator's ballot. Correspondence: ~240 shapes per run delivered through ABCI, admitted <-> code 0 compared with the model, effects on ballots observed.",
@@ -211,4 +243,4 @@ LEVELS = {
 }
 
 NOT_APPLICABLE = {p: "work in progress in this session: model exists, check not yet registered" for p in
-                  ['C13','C18','C19','C20']}
+                  ['C13']}
